@@ -768,11 +768,11 @@ def num_ceil(interp, recv, args):
 def num_round(interp, recv, args):
     if not math.isfinite(recv):
         return recv
-    # rust rounds half away from zero
-    r = math.floor(abs(recv) + 0.5)
-    if abs(recv) + 0.5 == r and (abs(recv) % 1.0) != 0.5:
-        # guard against precision artefacts for values just under .5
-        r = math.floor(abs(recv) + 0.5)
+    # rust rounds half away from zero. Not floor(|x| + 0.5): that sum is itself rounded (2^53 - 1 + 0.5 -> 2^53,
+    # 0.49999999999999994 + 0.5 -> 1); the fractional part |x| - floor(|x|) is exact
+    ax = abs(recv)
+    f = math.floor(ax)
+    r = f + (1 if ax - f >= 0.5 else 0)
     return math.copysign(float(r), recv)
 
 
